@@ -317,8 +317,11 @@ def persist_chain_system(rng, ncomp=None, name='ps', with_alpha=True, norms=Fals
     variables = {}
     for k in range(xcount):
         lo = rng.choice([-2, -1, 0, 1]); w = rng.choice([1, 2, 4])
+        extra = {}
+        if rng.random() < 0.5:          # legal "falsy" field values that must survive a save/load
+            extra = {'nominal': 0.0 if lo <= 0 <= lo + w else float(lo), 'description': '', 'units': ''}
         variables[f'x{k}'] = Variable(f'x{k}', distribution=f'U({lo}, {lo + w})',
-                                      norm=(rng.choice([None, 'linear(0.5, 1)', 'zscore(1, 2)']) if norms else None))
+                                      norm=(rng.choice([None, 'linear(0.5, 1)', 'zscore(1, 2)']) if norms else None), **extra)
     for s in spec:
         for o in s['outputs']:
             variables[o] = Variable(o, domain=(-50.0, 50.0), norm=(rng.choice([None, 'linear(0.5, 1)']) if norms else None))
